@@ -313,6 +313,9 @@ TARGETS = list(GL.TARGETS) + [
     ("src/bitvector/mod.rs", "BitVectorMut", "shrink_to_fit", "g_bvm_shrink_to_fit", {}),
     ("src/bitvector/mod.rs", "BitVector", "From::from", "g_bv_from_bvm", {}),
     ("src/bitvector/rs_wide.rs", "RSWide", "From::from", "g_rsw_from", {}),
+    # ---- group craft: the code assignment of the Huffman-shaped quad tree
+    ("src/quadwt/huffqwt.rs", None, "craft_wm_codes", "g_craft_wm_codes4", {}),
+    ("src/binwt/mod.rs", None, "craft_wm_codes", "g_craft_wm_codes2", {}),
     # ---- group iters: the iterators over bit vectors
     ("src/bitvector/mod.rs", "BitVectorBitPositionsIter", "new", "g_pi1_new", {"BIT": True}),
     ("src/bitvector/mod.rs", "BitVectorBitPositionsIter", "with_pos", "g_pi1_with_pos", {"BIT": True}),
@@ -354,6 +357,8 @@ GROUPS = {
     "qwtnew": ("src/quadwt/mod.rs", ("QWaveletTree@new",)),
     "wtnew": ("src/binwt/mod.rs", ("WaveletTree@new",)),
     "iters": ("src/bitvector/mod.rs", ("BitVectorBitPositionsIter", "BitVectorIter", "BitVectorIntoIter")),
+    "craft": ("src/quadwt/huffqwt.rs", ("@craft",)),
+    "craft2": ("src/binwt/mod.rs", ("@craft",)),
 }
 # which generated files a group's file must import (T3 leaves and earlier T5 groups)
 GROUP_IMPORTS = {
@@ -371,6 +376,8 @@ GROUP_IMPORTS = {
     "utils": ["LeavesUtils"],
     "wtnew": ["LeavesUtils", "FnsUtils", "FnsBv", "FnsBvm", "FnsRsw2"],
     "iters": ["LeavesUtils", "FnsBv"],
+    "craft": ["LeavesUtils"],
+    "craft2": ["LeavesUtils"],
     "qwtnew": ["LeavesUtils", "FnsUtils", "FnsQv2", "FnsQvb", "FnsRss", "FnsRsq"],
     "rsq": ["LeavesUtils", "LeavesSB", "LeavesLine", "LeavesQV", "FnsRss", "FnsQv2", "FnsQvb"],
 }
@@ -378,7 +385,7 @@ GROUP_IMPORTS = {
 GL.RESERVED |= set("""while_loop for_loop iter_loop Next Brk Ret Done Retd len concat ounwrap wshl wshr fsqrt fuel Some
     None option step fin r s v zwrap ziadd zisub zimul zineg zshamt Z left right inl inr pair fst snd S O nil cons xH xO xI N0 Npos
     Z0 Zpos Zneg eq_refl conj I opt_ltb nthN wT for_loop_rev checked_add obsearch_fst iteri_loop ofold push_at resize_with last_opt set_last setN
-    last_ e_ omap max_opt clz copy_into tzcnt tz_pos""".split())
+    last_ e_ omap max_opt clz copy_into tzcnt tz_pos omapf sort_by_fst sort_by_snd insert_by""".split())
 
 
 # ------------------------------------------------------------------------------ item index with trait info
@@ -576,6 +583,14 @@ class Parser5(Parser):
             if name == "Self":
                 self.i += 1
                 return ("struct", "Self")
+            if name == "HashMap" and self.at("<", 1):
+                # HashMap<K, V>: the list of its (key, value) pairs in the (arbitrary) order its iterator yields them
+                self.i += 2
+                kt = self.type()
+                self.expect(",")
+                vt = self.type()
+                self.close_angle()
+                return ("slice", ("tuple", (kt, vt)))
             if name[:1].isupper() and name not in ("Self",):
                 self.i += 1
                 if self.at("<"):
@@ -743,8 +758,17 @@ class Parser5(Parser):
                     hi = self.expr_nostruct()
                     self.expect(")")
                     self.expect(".")
-                    if self.ident() != "rev":
-                        self.fail("range adaptor (only `.rev()`)")
+                    ad = self.ident()
+                    if ad == "step_by":
+                        # for t in (lo..hi).step_by(k): t = lo, lo + k, .. below hi
+                        self.expect("(")
+                        stepe = self.expr()
+                        self.expect(")")
+                        stmts.append(("forstep", x, lo, hi, stepe, self.loop_body()))
+                        self.accept(";")
+                        continue
+                    if ad != "rev":
+                        self.fail("range adaptor (only `.rev()` / `.step_by(k)`)")
                     self.expect("(")
                     self.expect(")")
                     rev, incl = True, False
@@ -919,7 +943,7 @@ class Parser5(Parser):
                 n = self.expr()
                 self.expect("]")
                 if n[0] != "lit":
-                    self.fail("array repeat length (literal expected)")
+                    return ("arrayrep", first, n)       # vec![e; n] with a computed length
                 return ("array", [first] * n[1])
             self.i = save
         if t0.kind == "op" and t0.text == "|":
@@ -1529,6 +1553,8 @@ class FnT5(FnTranslator):
             return exp
         if k == "var" and e[1] in env and isinstance(env[e[1]][1], tuple) and env[e[1]][1][0] == "recparam":
             return ("record", env[e[1]][1][1], env[e[1]][1][2])
+        if k == "var" and e[1] in env and isinstance(env[e[1]][1], tuple) and env[e[1]][1][0] == "soalocal":
+            return ("slice", ("record", env[e[1]][1][1], env[e[1]][1][2]))
         if k == "field" and e[1][0] == "var" and e[1][1] in env and isinstance(env[e[1][1]][1], tuple) \
                 and env[e[1][1]][1][0] == "recparam":
             lists = env[e[1][1]][1][3]
@@ -1671,12 +1697,29 @@ class FnT5(FnTranslator):
         if k == "mcall" and self.soa_recv(e[1]) is not None:
             r, _ = self.soa_recv(e[1])
             return self.norm_ret(self.method_sig(r[2], r[3], e[2]))
+        if k == "call" and len(e[1]) == 1 and self.tuple_struct(e[1][0]) is not None and len(e[3]) == len(self.tuple_struct(e[1][0])):
+            return ("tuple", self.tuple_struct(e[1][0]))
+        if k == "mcall" and e[2] == "count" and not e[3] and e[1][0] == "mcall" and e[1][2] == "iter" and not e[1][3] and is_list(self.ty(e[1][1], None, env)):
+            return "usize"
+        if k == "arrayrep":
+            t0 = self.ty(e[1], exp[1] if is_list(exp) else None, env)
+            return ("slice", t0) if t0 is not None else (exp if is_list(exp) else None)
+        if self.map_collect(e, env) is not None:
+            L, clo = self.map_collect(e, env)
+            tl = self.ty(L, None, env)
+            if not is_list(tl):
+                self.fail("map over %s" % (tl,))
+            sub, _ = self.closure_env(clo, tl[1], env)
+            tb = self.ty(clo[2], exp[1] if is_list(exp) else None, sub)
+            return ("slice", tb) if tb is not None else None
         if k == "call" and e[1] == ["std", "mem", "size_of"] and len(e[2]) == 1 and not e[3]:
             return "usize"
         if k == "mcall" and e[2] == "leading_zeros" and not e[3] and self.ty(e[1], None, env) == "@T":
             return "u32"
         if k == "mcall" and e[2] == "trailing_zeros" and not e[3] and self.ty(e[1], None, env) in INT:
             return "u32"
+        if k == "mcall" and e[2] in ("max", "min") and len(e[3]) == 1 and (self.ty(e[1], None, env) in INT or self.ty(e[3][0], None, env) in INT):
+            return self.ty(e[1], None, env) if self.ty(e[1], None, env) in INT else self.ty(e[3][0], None, env)
         if k == "mcall" and e[2] == "collect" and not e[3] and isinstance(exp, tuple) and exp[0] == "record" and self.collect_source(e, env) is not None:
             return exp
         if k == "mcall" and e[2] == "collect" and not e[3] and (exp is None or is_list(exp)) and self.collect_source(e, env) is not None:
@@ -1867,7 +1910,7 @@ class FnT5(FnTranslator):
                 elif s[0] == "while":
                     expr(s[1], env)
                     walk(s[2][1], dict(env))
-                elif s[0] == "for":
+                elif s[0] in ("for", "forstep"):
                     e2 = dict(env)
                     expr(s[2], env)
                     expr(s[3], env)
@@ -1908,6 +1951,10 @@ class FnT5(FnTranslator):
 
     def let_types(self, s, env, bind, rest=None):
         _, pat, ann, init = s
+        hint = self.HINTS.get((self.unit.rel, self.fname), {}).get(pat) if isinstance(pat, str) else None
+        if hint is not None and ann is None:
+            bind(pat, hint)
+            return hint
         if ann is not None:
             a2 = self.sub_t(ann)
             if isinstance(a2, tuple):
@@ -2046,8 +2093,8 @@ class FnT5(FnTranslator):
     # ---- expressions
     def emit(self, e, exp, cx):
         k, env = e[0], cx.env
-        if k == "var" and e[1] in env and isinstance(env[e[1]][1], tuple) and env[e[1]][1][0] == "recparam":
-            # a struct value (parameter or local) as a whole: the tuple of its fields
+        if k == "var" and e[1] in env and isinstance(env[e[1]][1], tuple) and env[e[1]][1][0] in ("recparam", "soalocal"):
+            # a struct value (parameter or local) as a whole: the tuple of its fields (a vector of structs: of its lists)
             return "(" + ", ".join(x[0] for x in env[e[1]][1][3].values()) + ")", True
         if k == "field" and e[1][0] == "var" and e[1][1] in env and isinstance(env[e[1][1]][1], tuple) \
                 and env[e[1][1]][1][0] == "recparam":
@@ -2300,6 +2347,35 @@ class FnT5(FnTranslator):
             if t not in INT:
                 self.fail("sqrt of %s" % (t,))
             return app("fsqrt", self.val(x, None, cx)), True
+        if k == "call" and len(e[1]) == 1 and self.tuple_struct(e[1][0]) is not None and len(e[3]) == len(self.tuple_struct(e[1][0])):
+            ts = self.tuple_struct(e[1][0])
+            vs = []
+            for a, t_ in zip(e[3], ts):
+                self.need(a, t_, env, t_)
+                vs.append(self.val(a, t_, cx))
+            return "(" + ", ".join(vs) + ")", True
+        if k == "mcall" and e[2] == "count" and not e[3] and e[1][0] == "mcall" and e[1][2] == "iter" and not e[1][3] and is_list(self.ty(e[1][1], None, env)):
+            return app("len", self.val(e[1][1], None, cx)), True
+        if k == "arrayrep":
+            t = self.ty(e, exp, env)
+            if not is_list(t):
+                self.fail("element type of `vec![e; n]`")
+            self.need(e[2], "usize", env, "usize")
+            nv = self.val(e[2], "usize", cx)
+            return "repeat %s (N.to_nat %s)" % (paren(self.val(e[1], t[1], cx)), paren(nv)), True
+        if self.map_collect(e, env) is not None:
+            L, clo = self.map_collect(e, env)
+            tl = self.ty(L, None, env)
+            t = self.ty(e, exp, env)
+            lv = self.val(L, None, cx)
+            sub = Cx(self, env, cx.depth + 1)
+            subenv, names = self.closure_env(clo, tl[1], env)
+            sub.env = subenv
+            for n_ in names:
+                sub.env[n_] = (sub.env[n_][0], sub.env[n_][1], sub.depth)
+            body = self.block_val(clo[2], t[1], sub)
+            pat = ("'(%s)" % ", ".join(sub.env[n_][0] for n_ in names)) if len(names) > 1 else sub.env[names[0]][0]
+            return "omapf (fun %s =>\n%s) %s" % (pat, "\n".join("    " + l for b in body for l in b.split("\n")), paren(lv)), False
         if k == "call" and e[1] == ["std", "mem", "size_of"] and len(e[2]) == 1 and not e[3]:
             t = self.sub_t(e[2][0])
             if t == "@T":
@@ -2311,6 +2387,10 @@ class FnT5(FnTranslator):
         if k == "mcall" and e[2] == "trailing_zeros" and not e[3] and self.ty(e[1], None, env) in INT:
             t = self.ty(e[1], None, env)
             return app("tzcnt", str(INT[t]), self.val(e[1], t, cx)), True
+        if k == "mcall" and e[2] in ("max", "min") and len(e[3]) == 1 and (self.ty(e[1], None, env) in INT or self.ty(e[3][0], None, env) in INT):
+            t = self.ty(e, exp, env)
+            self.need(e[1], t, env, t), self.need(e[3][0], t, env, t)
+            return app("N.max" if e[2] == "max" else "N.min", self.val(e[1], t, cx), self.val(e[3][0], t, cx)), True
         if k == "mcall" and e[2] == "leading_zeros" and not e[3] and self.ty(e[1], None, env) == "@T":
             self.needs_w = True
             return app("clz", "wT", self.val(e[1], None, cx)), True
@@ -2674,7 +2754,12 @@ class FnT5(FnTranslator):
                         expr(s[3], declared)
                 elif s[0] == "assign":
                     tg = s[1][1] if s[1][0] == "index" else s[1]
-                    if tg[0] == "var":
+                    if tg[0] == "var" and tg[1] in env and tg[1] not in declared and isinstance(env[tg[1]][1], tuple) and env[tg[1]][1][0] == "soalocal":
+                        for pp in env[tg[1]][1][3]:
+                            n = "%s.%s" % (tg[1], ".".join(pp))
+                            if n in env and n not in out:
+                                out.append(n)
+                    elif tg[0] == "var":
                         n = tg[1]
                         if n not in declared and n in env and n not in out:
                             out.append(n)
@@ -2723,14 +2808,14 @@ class FnT5(FnTranslator):
                                 out.append(n)
                     if tgt[0] == "index" and tgt[1][0] == "var" and (m == "push" or tgt[1][1] in self.elem_nominal):
                         tgt = tgt[1]
-                    if tgt[0] == "var" and (m in ("push", "resize_with") or tgt[1] in self.elem_nominal):
+                    if tgt[0] == "var" and (m in ("push", "resize_with", "sort_by_key") or tgt[1] in self.elem_nominal):
                         n = tgt[1]
                         if n not in declared and n in env and n not in out and not (isinstance(env[n][1], tuple) and env[n][1][0] in ("soalocal", "recparam")):
                             out.append(n)
                     expr(s[1][3], declared)
                 elif s[0] == "while":
                     walk(s[2][1], declared)
-                elif s[0] == "for":
+                elif s[0] in ("for", "forstep"):
                     walk(s[5][1], declared | {s[1]})
                 elif s[0] == "foriter":
                     walk(s[4][1], declared | {s[2]} | ({s[1]} if s[1] else set()))
@@ -2860,6 +2945,24 @@ class FnT5(FnTranslator):
                     lists[pp] = (cn, ("slice", tt))
                     L.append("let %s := [] in" % cn)
                 cx.env[s[1]] = (None, ("soalocal", st[1], st[2], lists), cx.depth)
+            elif k == "let" and isinstance(s[1], str) and s[3] is not None and s[3][0] == "arrayrep" and self.record_value_type_nested(s[3][1], cx.env) is not None:
+                # vec![S { .. }; n] of several-field structs: one list per field, each n copies of the field's value
+                st = self.record_value_type_nested(s[3][1], cx.env)
+                v, pure = self.emit(s[3][1], st, cx)
+                leaves = self.model_leaves(("struct", st[1]), self.world.unit(st[2]))
+                tmp = [self.fresh() for _ in leaves]
+                L.append(("let '(%s) := %s in" if pure else "let! (%s) := %s in") % (", ".join(tmp), v))
+                self.need(s[3][2], "usize", cx.env, "usize")
+                nv = self.val(s[3][2], "usize", cx)
+                lists = {}
+                for (pp, tt), tv in zip(leaves, tmp):
+                    cn = "%s_%s" % (s[1], "_".join(pp))
+                    while cn in GL.RESERVED or cn in self.sigs_coq or cn in self.field_coq.values():
+                        cn += "_"
+                    cx.env["%s.%s" % (s[1], ".".join(pp))] = (cn, ("slice", tt), cx.depth)
+                    lists[pp] = (cn, ("slice", tt))
+                    L.append("let %s := repeat %s (N.to_nat %s) in" % (cn, tv, paren(nv)))
+                cx.env[s[1]] = (None, ("soalocal", st[1], st[2], lists), cx.depth)
             elif k == "let" and isinstance(s[1], str) and s[3] is not None and self.record_value_type(s[3], cx.env, s[2]) is not None:
                 # a local of a several-field struct type: one variable per field
                 t = self.record_value_type(s[3], cx.env, s[2])
@@ -2912,7 +3015,7 @@ class FnT5(FnTranslator):
                 xc = sub.bind(x, t[1])
                 bl = self.seq(body[1], None, sub, EndFlow([xc], None))
                 L.append("\n".join(["let! %s := omap (fun %s =>" % (coq, xc)] + ["    " + l for b in bl for l in b.split("\n")] + ["  ) %s in" % coq]))
-            elif k in ("while", "for", "foriter"):
+            elif k in ("while", "for", "foriter", "forstep"):
                 return self.loop(s, rest, tail, cx, flow)
             elif k == "expr" and s[1][0] == "iflet" and self.last_mut_pattern(s[1]) is not None:
                 v, x, m, margs = self.last_mut_pattern(s[1])
@@ -3093,6 +3196,44 @@ class FnT5(FnTranslator):
                 return n
         return None
 
+    HINTS = {
+        # types rustc infers through code outside the subset (closures, struct literals built later): local -> type
+        ("src/quadwt/huffqwt.rs", "craft_wm_codes"): {"c": ("slice", "u32"), "l": "u32", "m": "usize", "reversed_code": "u32"},
+        ("src/binwt/mod.rs", "craft_wm_codes"): {"c": ("slice", "u32"), "l": "u32", "m": "usize", "reversed_code": "u32"},
+    }
+
+    def tuple_struct(self, name):
+        """field types of `struct Name(T1, T2, ..);` of this file, or None"""
+        m = re.search(r"struct\s+%s\s*\(([^)]*)\)\s*;" % re.escape(name), self.unit.src)
+        if not m:
+            return None
+        ts = [x.strip().replace("pub ", "") for x in m.group(1).split(",") if x.strip()]
+        if not all(t in INT or t == "bool" for t in ts):
+            return None
+        return tuple(ts)
+
+    def closure_names(self, pat):
+        return [x for x in pat if re.fullmatch(r"[A-Za-z_][A-Za-z0-9_]*", x) and x != "mut"]
+
+    def map_collect(self, e, env):
+        """L.iter().map(|pat| body).collect(): (L, closure)"""
+        if e[0] == "mcall" and e[2] == "collect" and not e[3] and e[1][0] == "mcall" and e[1][2] == "map" and len(e[1][3]) == 1 \
+                and e[1][3][0][0] == "closure" and e[1][1][0] == "mcall" and e[1][1][2] == "iter" and not e[1][1][3]:
+            return e[1][1][1], e[1][3][0]
+        return None
+
+    def closure_env(self, clo, et, env):
+        names = self.closure_names(clo[1])
+        sub = dict(env)
+        if isinstance(et, tuple) and et[0] == "tuple" and len(names) == len(et[1]):
+            for n_, t_ in zip(names, et[1]):
+                sub[n_] = (n_ + "_" if n_ in GL.RESERVED else n_, t_, -1)
+        elif len(names) == 1:
+            sub[names[0]] = (names[0] + "_" if names[0] in GL.RESERVED else names[0], et, -1)
+        else:
+            self.fail("closure pattern")
+        return sub, names
+
     def collect_source(self, e, env):
         """x.iter().copied().collect() / x.iter().cloned().collect() / x.into_iter().collect(): the list x"""
         r = e[1]
@@ -3211,6 +3352,16 @@ class FnT5(FnTranslator):
             self.need(args[0], t[1][1], cx.env, t[1][1])
             v = self.val(args[0], t[1][1], cx)
             cx.lines.append("let! %s := push_at %s %s %s in" % (coq, paren(coq), paren(iv), paren(v)))
+            return
+        if m == "sort_by_key" and len(args) == 1 and args[0][0] == "closure" and recv[0] == "var" and recv[1] in cx.env and is_list(cx.env[recv[1]][1]):
+            # v.sort_by_key(|x| x.k): the stable sort by the k-th component
+            coq, t, depth = cx.env[recv[1]]
+            clo = args[0]
+            names = self.closure_names(clo[1])
+            if depth != cx.depth or len(names) != 1 or clo[2][0] != "tfield" or clo[2][1] != ("var", names[0]) \
+                    or not (isinstance(t[1], tuple) and t[1][0] == "tuple" and len(t[1][1]) == 2):
+                self.fail("`sort_by_key` (only by a component of a vector of pairs)")
+            cx.lines.append("let %s := %s %s in" % (coq, "sort_by_fst" if clo[2][2] == 0 else "sort_by_snd", coq))
             return
         if m == "shrink_to_fit" and not args and recv[0] == "var" and recv[1] in cx.env and \
                 (is_list(cx.env[recv[1]][1]) or (isinstance(cx.env[recv[1]][1], tuple) and cx.env[recv[1]][1][0] == "soalocal")):
@@ -3340,6 +3491,31 @@ class FnT5(FnTranslator):
 
     def assign5(self, s, cx):
         _, lhs, op, rhs = s
+        if lhs[0] == "index" and lhs[1][0] == "var" and lhs[1][1] in cx.env and isinstance(cx.env[lhs[1][1]][1], tuple) \
+                and cx.env[lhs[1][1]][1][0] == "soalocal" and op is None:
+            # v[i] = S { .. } on a vector of several-field structs: every list is updated at i (one bounds check)
+            sl = cx.env[lhs[1][1]][1]
+            t = self.record_value_type_nested(rhs, cx.env)
+            if t is None or t[1] != sl[1]:
+                self.fail("assignment to `%s[..]` of a value of type %s" % (lhs[1][1], t))
+            v, pure = self.emit(rhs, t, cx)
+            tmp = [self.fresh() for _ in sl[3]]
+            cx.lines.append(("let '(%s) := %s in" if pure else "let! (%s) := %s in") % (", ".join(tmp), v))
+            self.need(lhs[2], "usize", cx.env, "usize")
+            iv = self.val(lhs[2], "usize", cx)
+            if not re.fullmatch(r"[A-Za-z_][A-Za-z0-9_']*|[0-9]+", iv):
+                nm = self.fresh()
+                cx.lines.append("let %s := %s in" % (nm, iv))
+                iv = nm
+            first = True
+            for (pp, (cn, _)), tv in zip(sl[3].items(), tmp):
+                if cx.env["%s.%s" % (lhs[1][1], ".".join(pp))][2] != cx.depth:
+                    self.fail("assignment to `%s[..]` from a nested block" % lhs[1][1])
+                if first:
+                    cx.lines.append("let! _ := %s in" % app("idx", cn, iv))
+                    first = False
+                cx.lines.append("let %s := %s in" % (cn, app("setN", cn, iv, tv)))
+            return
         if lhs[0] == "index" and lhs[1][0] == "var" and lhs[1][1] in cx.env and is_list(cx.env[lhs[1][1]][1]):
             coq, t, depth = cx.env[lhs[1][1]]
             if depth != cx.depth:
@@ -3435,6 +3611,12 @@ class FnT5(FnTranslator):
     def loop(self, s, rest, tail, cx, flow):
         L = cx.lines
         body = s[2] if s[0] == "while" else (s[4] if s[0] == "foriter" else s[5])
+        step = None
+        if s[0] == "forstep":
+            if s[4][0] != "lit" or s[4][1] == 0:
+                self.fail("`step_by` with a step that is not a positive literal")
+            step = s[4][1]
+            s = ("for", s[1], s[2], s[3], False, s[5])
         if body[2] is not None:
             self.fail("loop body with a value")
         state = self.assigned_outer(body, cx.env)
@@ -3496,6 +3678,10 @@ class FnT5(FnTranslator):
             bcx = Cx(self, cx.env, cx.depth + 1)
             xc = bcx.bind(x, t) if x != "_" else "_"
             head = ["let! r := for_loop (fun %s %s =>" % (xc, lam)]
+            if step is not None:
+                # (lo..hi).step_by(k): the k-th iteration sees lo + k * step; ceil((hi - lo) / step) iterations
+                head = ["let! r := for_loop (fun k_ %s =>" % lam, "    let %s := %s + k_ * %d in" % (xc, paren(lov), step)]
+                step_close = "  ) 0 (N.to_nat ((%s - %s + %d) / %d)) %%s in" % (paren(hiv), paren(lov), step - 1, step)
         for n in state:
             bcx.env[n] = (cx.env[n][0], cx.env[n][1], bcx.depth)
         lf = LoopFlow(names, flow)
@@ -3508,6 +3694,8 @@ class FnT5(FnTranslator):
         elif rev:
             head[0] = head[0].replace("for_loop ", "for_loop_rev ", 1)
             close = "  ) %s (N.to_nat (%s - %s)) %s in" % (paren(hiv), paren(hiv), paren(lov), init)
+        elif step is not None:
+            close = step_close % init
         else:
             close = "  ) %s (N.to_nat (%s - %s)) %s in" % (paren(lov), paren(hiv), paren(lov), init)
         out = L + head + ["    " + l for a in blines for l in a.split("\n")] + [close]
@@ -3580,6 +3768,10 @@ class FnT5(FnTranslator):
                 names.append(cx.bind(pn, nt))
         rett = self.norm(self.ret, self.unit.rel) if isinstance(self.ret, tuple) else self.ret
         self.ret = rett
+        if self.mutparams:
+            # a `&mut` parameter the body never writes to is an ordinary argument
+            written = self.assigned_outer(self.body, {q: (q, cx.env[q][1] if q in cx.env else None, 0) for q in self.mutparams})
+            self.mutparams = [q for q in self.mutparams if q in written]
         if self.is_mut:
             for pp in self.paths:
                 cx.env["self." + ".".join(pp)] = (self.path_coq[pp], self.path_ty[pp], 0)
@@ -3608,7 +3800,10 @@ class FnT5(FnTranslator):
         binders = (["(fuel : nat)"] if self.needs_fuel else []) + (["(wT : N)"] if self.needs_w else []) + \
             ["(%s : %s)" % (self.path_coq[p], coq_type5(self.path_ty[p])) for p in self.paths] + \
             ["(%s : %s)" % (n, coq_type5(t)) for n, t in zip(names, ptys)]
-        if isinstance(rett, tuple) and rett[0] == "record" and not self.mutparams:
+        if is_list(rett) and isinstance(rett[1], tuple) and rett[1][0] == "record" and not self.mutparams and not self.is_mut:
+            # a vector of several-field structs is returned as one list per field
+            rcoq = " * ".join(paren(coq_type5(("slice", tt))) for _, tt in self.model_leaves(("struct", rett[1][1]), self.world.unit(rett[1][2])))
+        elif isinstance(rett, tuple) and rett[0] == "record" and not self.mutparams:
             # a struct with several fields is returned as the tuple of its fields, in declaration order
             rcoq = " * ".join(paren(coq_type5(tt)) for _, tt in self.model_leaves(("struct", rett[1]), self.world.unit(rett[2])))
         elif self.is_mut:
@@ -3822,10 +4017,16 @@ QWTNEW_COQ = ("g_qwt256_new", "g_qwt512_new", "g_qwt256_from_vec", "g_qwt512_fro
 
 
 def in_group(group, owners_g, owner, coq):
+    if group == "craft":
+        return coq == "g_craft_wm_codes4"
+    if group == "craft2":
+        return coq == "g_craft_wm_codes2"
+    if group == "hqwt":
+        return coq != "g_craft_wm_codes4"
     if group == "qwt":
         return coq not in QWTNEW_COQ
     if group == "wt":
-        return coq not in WTNEW_COQ
+        return coq not in WTNEW_COQ and coq != "g_craft_wm_codes2"
     if owners_g is None:
         return True
     if group == "bv":
@@ -3833,7 +4034,7 @@ def in_group(group, owners_g, owner, coq):
     if group == "wtnew":
         return coq in WTNEW_COQ
     if group == "wt":
-        return coq not in WTNEW_COQ
+        return coq not in WTNEW_COQ and coq != "g_craft_wm_codes2"
     if group == "qwtnew":
         return coq in QWTNEW_COQ
     if group == "qwt":
